@@ -200,6 +200,9 @@ def regex_family():
         yield [("M", {}, A("p", "=", RE(pat)))], texts
         yield [("M", {}, A("p", "+=", RE(pat)))], texts
         yield [("M", {}, A("p", "=", REF("V"))), ("V", {}, RE(pat))], texts
+        # the regex is one alternative of a match rule (the matched alternative is still a single regular expression)
+        yield [("M", {}, A("p", "=", REF("V"))), ("V", {}, gramgen.ALT(RE(pat), L("q")))], texts
+        yield [("M", {}, A("p", "+=", REF("V"))), ("V", {}, gramgen.ALT(L("q"), RE(pat)))], texts
         # (a grouped regex inside the concatenated value of an enclosing match rule is not enumerated: the documentation does not say
         #  whether the group or the whole match is concatenated - DESIGN.md 3.3)
         for bt, vals in (("FLOAT", ["-1.5", "1e3", "+.5e-2"]), ("NUMBER", ["-7", "-1.5"]), ("BOOL", ["true", "0"]), ("STRING", ['"s"', "'t'"])):
